@@ -338,15 +338,22 @@ func (rs *ResourceSubscription) enqueueGetResponse(data []byte, err error) {
 // unregister deletes itself and all its links from
 // the EventSubscription
 func (rs *ResourceSubscription) unregister() {
+	// The resource subscription may already have been unregistered, and its
+	// query registered anew by another resource subscription, when a late
+	// response or event unregisters it once more.
 	if rs.query == "" {
-		rs.e.base = nil
-	} else {
+		if rs.e.base == rs {
+			rs.e.base = nil
+		}
+	} else if rs.e.queries[rs.query] == rs {
 		delete(rs.e.queries, rs.query)
 	}
 	for _, q := range rs.links {
 		if q == "" {
-			rs.e.base = nil
-		} else {
+			if rs.e.base == rs {
+				rs.e.base = nil
+			}
+		} else if rs.e.links[q] == rs {
 			delete(rs.e.links, q)
 		}
 	}
